@@ -107,3 +107,123 @@ def fired_counters(out, c):
     for f in out.rec.scn.get('faults', []):
         if f['kind'] == 'evalorder':
             c['fired.evalorder.perturb'] = c.get('fired.evalorder.perturb', 0) + 1
+
+
+# ---------------------------------------------------------------------------------------------------------------------
+# run / edit the model through the public API / reset / rerun histories: whatever the simulator or the model caches between runs
+# (fitted pump coefficients, pattern arrays, registries) must follow the edit
+def gen_edits(rng, scn, n=(1, 3)):
+    edits = []
+    pipes = [l for l in scn['links'] if l['type'] == 'pipe']
+    juncs = [x for x in scn['nodes'] if x['type'] == 'J' and x.get('demands')]
+    heads = [l for l in scn['links'] if l['type'] == 'pump' and l.get('kind') == 'HEAD']
+    valves = [l for l in scn['links'] if l['type'] == 'valve']
+    for _ in range(rng.irange(*n)):
+        k = rng.wpick([('pipe', 3), ('pattern', 3 if scn['patterns'] else 0), ('demand', 3 if juncs else 0), ('pump_curve', 4 if heads else 0),
+                       ('valve_setting', 2 if valves else 0), ('multiplier', 1), ('elevation', 1), ('reservoir_head', 1), ('tank_init', 1)])
+        if k == 'pipe' and pipes:
+            l = rng.pick(pipes)
+            attr = rng.pick(['diam', 'len', 'rough', 'minor'])
+            val = {'diam': rng.pick([0.15, 0.2, 0.3, 0.4]), 'len': round(l['len'] * rng.pick([0.5, 2.0]), 2), 'rough': float(rng.pick([90, 110, 135])),
+                   'minor': rng.pick([0.0, 1.5, 8.0])}[attr]
+            edits.append({'kind': 'pipe', 'id': l['id'], 'attr': attr, 'value': val})
+        elif k == 'pattern':
+            nm = rng.pick(sorted(scn['patterns']))
+            if nm == 'HSWEEP':
+                continue
+            edits.append({'kind': 'pattern', 'name': nm, 'mults': [round(rng.uni(0.3, 1.7), 3) for _ in range(rng.irange(2, 6))]})
+        elif k == 'demand':
+            j = rng.pick(juncs)
+            i = rng.irange(0, len(j['demands']) - 1)
+            edits.append({'kind': 'demand', 'node': j['id'], 'i': i, 'value': round(abs(j['demands'][i][0]) * rng.pick([0.5, 1.5, 2.0]) + 0.0002, 6)})
+        elif k == 'pump_curve':
+            l = rng.pick(heads)
+            f = rng.pick([0.8, 0.9, 1.2, 1.4])
+            edits.append({'kind': 'curve_points', 'curve': l['curve'], 'points': [[p_[0], round(p_[1] * f, 3)] for p_ in scn['curves'][l['curve']]['points']]})
+        elif k == 'valve_setting':
+            l = rng.pick(valves)
+            edits.append({'kind': 'valve_setting', 'id': l['id'], 'value': round((l['setting'] if l['setting'] > 0 else 5.0) * rng.pick([0.6, 1.3]), 6)})
+        elif k == 'multiplier':
+            edits.append({'kind': 'multiplier', 'value': rng.pick([0.7, 1.3])})
+        elif k == 'elevation':
+            j = rng.pick([x for x in scn['nodes'] if x['type'] == 'J'])
+            edits.append({'kind': 'elevation', 'node': j['id'], 'value': round(j['elev'] + rng.pick([-3.0, 4.0]), 2)})
+        elif k == 'reservoir_head':
+            r = rng.pick([x for x in scn['nodes'] if x['type'] == 'R'])
+            if r.get('pattern') == 'HSWEEP':
+                continue
+            edits.append({'kind': 'reservoir_head', 'node': r['id'], 'value': round(r['head'] + rng.pick([-4.0, 3.0]), 2)})
+        elif k == 'tank_init':
+            ts = [x for x in scn['nodes'] if x['type'] == 'T']
+            if ts:
+                t = rng.pick(ts)
+                edits.append({'kind': 'tank_init', 'node': t['id'], 'value': round(t['min'] + (t['max'] - t['min']) * rng.uni(0.2, 0.8), 3)})
+    return edits
+
+
+def apply_edits(wn, scn2, edits):
+    """apply the edits to the live model (public API) and to the scenario dict the oracles read"""
+    lm = {l['id']: l for l in scn2['links']}
+    nm = {x['id']: x for x in scn2['nodes']}
+    for e in edits:
+        k = e['kind']
+        if k == 'pipe':
+            if e['id'] not in lm:
+                continue
+            obj = wn.get_link(e['id'])
+            setattr(obj, {'diam': 'diameter', 'len': 'length', 'rough': 'roughness', 'minor': 'minor_loss'}[e['attr']], e['value'])
+            lm[e['id']][e['attr']] = e['value']
+        elif k == 'pattern':
+            if e['name'] not in scn2['patterns']:
+                continue
+            wn.get_pattern(e['name']).multipliers = list(e['mults'])
+            scn2['patterns'][e['name']] = list(e['mults'])
+        elif k == 'demand':
+            if e['node'] not in nm or e['i'] >= len(nm[e['node']].get('demands', [])):
+                continue
+            wn.get_node(e['node']).demand_timeseries_list[e['i']].base_value = e['value']
+            nm[e['node']]['demands'][e['i']][0] = e['value']
+        elif k == 'curve_points':
+            if e['curve'] not in scn2['curves']:
+                continue
+            wn.get_curve(e['curve']).points = [tuple(p_) for p_ in e['points']]
+            scn2['curves'][e['curve']]['points'] = [list(p_) for p_ in e['points']]
+        elif k == 'valve_setting':
+            if e['id'] not in lm:
+                continue
+            wn.get_link(e['id']).initial_setting = e['value']
+            lm[e['id']]['setting'] = e['value']
+        elif k == 'multiplier':
+            wn.options.hydraulic.demand_multiplier = e['value']
+            scn2['options']['multiplier'] = e['value']
+        elif k == 'elevation':
+            if e['node'] not in nm:
+                continue
+            wn.get_node(e['node']).elevation = e['value']
+            nm[e['node']]['elev'] = e['value']
+        elif k == 'reservoir_head':
+            if e['node'] not in nm:
+                continue
+            wn.get_node(e['node']).base_head = e['value']
+            nm[e['node']]['head'] = e['value']
+        elif k == 'tank_init':
+            if e['node'] not in nm:
+                continue
+            wn.get_node(e['node']).init_level = e['value']
+            nm[e['node']]['init'] = e['value']
+
+
+def edit_and_rerun(scn):
+    """first run, edits, reset_initial_values, second run on the SAME model object -> (RunOut of the second run, edited scenario) or None"""
+    s1 = world.clone(scn)
+    s1['faults'] = []
+    wn = world.build(s1)
+    first = runsim.run_world(s1, wn=wn)
+    if first.exc is not None or not first.parts or first.parts[-1].error_code is not None:
+        return None
+    s2 = world.clone(s1)
+    apply_edits(wn, s2, scn['edits'])
+    wn.reset_initial_values()
+    second = runsim.run_world(s2, wn=wn)
+    second.tables = concat(second.parts) if second.parts else None
+    return second, s2
